@@ -21,7 +21,7 @@ RULE = ("every kernel program of <= Dp executed instructions (timeouts, shared e
         "until-event had a waiter registered after the run() call; distinct = distinct (program, plan)")
 ASSUMPTIONS = [
     "PYTHONHASHSEED cannot be enumerated: trace digests of the uninterrupted runs are compared across fresh interpreter "
-    "processes for 13 seeds (11 fixed, 2 VERIF_SEED-derived) and twice inside one process (a fixed finite comparison)",
+    "processes for 13 seeds (11 fixed, 2 VERIF_SEED-derived), in interpreters started with -O and -OO, and twice inside one process (a fixed finite comparison)",
     "stopping on an event that fails, or that is never triggered, is outside the statement and not driven",
 ]
 OPS = ["ret", ("T", 0), ("T", 1), ("T", 2), ("W", 0, True), ("S", 0), ("J", True), "I", "Sp"]
@@ -31,6 +31,8 @@ OPS_F = ["ret", ("T", 0), ("T", 0.2), ("T", 0.7), ("W", 0, True), ("S", 0), "I"]
 OPS_C = ["ret", "raise", ("T", 0), ("T", 1), ("W", 0, True), ("W", 0, False), ("S", 0), ("F", 0), ("J", False)]
 # exception objects as the VALUE of a successful event
 OPS_X = ["ret", ("T", 0), ("T", 1), ("W", 0, True), ("SX", 0), ("S", 0), ("J", True)]
+# occurrences dated at infinity (an end-of-time reporter): run() must process them like step() does
+OPS_I = ["ret", ("T", 0), ("T", 1), ("T", float("inf")), ("W", 0, True), ("S", 0)]
 NSCEN = 9
 
 
@@ -41,6 +43,8 @@ def plan(tier, seed):
         cfgs = [dict(kind="k", depth=5, S=2), dict(kind="k", depth=4, S=3)]
     cfgs.append(dict(kind="k", depth=3 if quick else 4, S=2 if quick else 3, ops="F", off=0.1))
     cfgs.append(dict(kind="k", depth=4, S=2, ops="X"))
+    cfgs.append(dict(kind="k", depth=4, S=2, ops="I"))
+    cfgs.append(dict(kind="k", depth=3 if quick else 4, S=2, init=-3))     # a clock that starts below zero
     cfgs.append(dict(kind="crashy", depth=4 if quick else 5, S=2))
     for sc in range(NSCEN):
         cfgs.append(dict(kind="net", scenario=sc, S=2 if quick else 3))
@@ -142,17 +146,18 @@ def execute(ch, cfg):
     if cfg["kind"] == "crashy":
         return exec_crashy(ch, cfg)
     res = Result()
-    ops = OPS_F if cfg.get("ops") == "F" else (OPS_X if cfg.get("ops") == "X" else OPS)
+    ops = {"F": OPS_F, "X": OPS_X, "I": OPS_I}.get(cfg.get("ops"), OPS)
+    init = cfg.get("init", 0)
     off = cfg.get("off", 0.25)
-    base = KC.K(ch, ops, cfg["depth"], reaction=False).run()
+    base = KC.K(ch, ops, cfg["depth"], reaction=False, env=Environment(init)).run()
     prog = list(ch.choices)
     blog = [x[2:] for x in base.log]
     bstep = [x[1] for x in base.log]
     if base.crashed is not None:
         res.digest = ("crash", tuple(prog))
         return res
-    dues = sorted(set(t[1] for t in base.trig if t[1] > 0))
-    menu = [("step",)] + [("t", t) for t in dues] + [("t", t + off) for t in dues] + [("t", 0)]
+    dues = sorted(set(t[1] for t in base.trig if t[1] > init))
+    menu = [("step",)] + [("t", t) for t in dues] + [("t", t + off) for t in dues] + [("t", init)]
     targets = []
     if ("ev", 0) in base.processed and base.outcome.get(("ev", 0), (None,))[0]:
         targets.append(("ev", 0))
@@ -171,7 +176,7 @@ def execute(ch, cfg):
     res.digest = (tuple(prog), tuple(stops))
     if not stops:
         return res
-    k = KC.K(Replayer(prog), ops, cfg["depth"], reaction=False)
+    k = KC.K(Replayer(prog), ops, cfg["depth"], reaction=False, env=Environment(init))
     env = k.env
     try:
         for st in stops:
@@ -259,6 +264,20 @@ def execute(ch, cfg):
         while env.peek() < INF and n < 10000:
             env.step()
             n += 1
+        env.run()           # whatever is left (occurrences dated at infinity), until the schedule is dry
+        # an environment that has run dry is not dead: what is started now runs
+        mark = []
+        t_end = env.now
+
+        def late():
+            yield env.timeout(1)
+            mark.append(env.now)
+        env.process(late())
+        env.run()
+        if mark != [t_end + 1]:
+            res.ev("C03.split")
+            res.bad("C03.split", "nothing-runs-after-the-schedule-ran-dry", "plan %r: a process started at t=%r after run() had returned logged %r" % (stops, t_end, mark))
+            return res
     except BaseException as e:  # noqa
         res.ev("C03.split")
         res.bad("C03.split", "split-run-raised-%s" % type(e).__name__, "plan %r: %r" % (stops, e))
@@ -526,10 +545,13 @@ def post(tier, seed, stats):
     seeds = [0, 1, 2, 3, 5, 8, 13, 21, 4242, 65537, 99991, (seed * 7919 + 13) % 100000, (seed * 104729 + 7) % 1000003]
     outs = {}
     procs = {}
+    # ... and two interpreters started with -O / -OO (assert statements and docstrings stripped): the same program
+    seeds = seeds + ["-O", "-OO"]
     for hs in seeds:
         envv = dict(os.environ)
-        envv["PYTHONHASHSEED"] = str(hs)
-        procs[hs] = subprocess.Popen([sys.executable, "-c",
+        envv["PYTHONHASHSEED"] = str(hs) if isinstance(hs, int) else "0"
+        envv.pop("PYTHONOPTIMIZE", None)
+        procs[hs] = subprocess.Popen([sys.executable] + ([hs] if isinstance(hs, str) else []) + ["-c",
                                       "import sys; sys.path.insert(0, %r); sys.path.insert(0, %r); import io, contextlib\n"
                                       "from harness import c03\n"
                                       "with contextlib.redirect_stdout(io.StringIO()): r = c03.digests()\n"
@@ -544,7 +566,7 @@ def post(tier, seed, stats):
     if (n1, d1) != (n2, d2):
         stats.viol[("C03.repro", "same-process-rerun-differs")] = [1, (-1, [], "two runs in one process gave different digests")]
     elif bad:
-        stats.viol[("C03.repro", "trace-differs-under-another-hash-seed-or-process")] = [len(bad), (-1, [], "PYTHONHASHSEED %r: %r vs %r" % (bad, outs[bad[0]][:60], want[:60]))]
+        stats.viol[("C03.repro", "trace-differs-under-another-hash-seed-or-process")] = [len(bad), (-1, [], "PYTHONHASHSEED / interpreter flag %r: %r vs %r" % (bad, outs[bad[0]][:60], want[:60]))]
     res["repro"] = {"programs_and_scenarios": n1 + NSCEN, "hash_seeds": seeds, "digest": d1}
     res["executions"] = n1 * (len(seeds) + 2)
     return res
